@@ -59,11 +59,27 @@ func init() {
 			pool = append(pool, g.R.randL(60, 10))
 		}
 		pool = append(pool, dirtySpecials()[:4]...)
+		// long coefficients (> 256 bits) of moderate magnitude in the slots the iterative functions draw from
+		for i, k := range []int{91, 120} {
+			c := g.R.digits(k)
+			pool[8+i] = finDec(false, c, -(k - 1 - i))
+		}
+		// small values whose coefficient is still heap-backed (a BigInt that was once wide), never read since
+		for i := 0; i < 4; i++ {
+			d := g.R.randL(g.R.between(1, 25), 6)
+			d.Hp = true
+			pool = append(pool, d)
+			if i < 2 {
+				pool[6+i] = d
+			}
+		}
 		var ctxs []Ctx
 		for i := 0; i < 6; i++ {
 			c := g.R.randCtxL(14)
 			ctxs = append(ctxs, c)
 		}
+		ctxs[4].T = 2047 // every condition trapped but Clamped (Inexact and Rounded included)
+		ctxs[5].T = 1967 | 16
 		ctxs = append(ctxs, Ctx{P: 3, Emin: -2, Emax: 3, R: "half_even"}, Ctx{P: 0, Emin: -100000, Emax: 100000},
 			Ctx{P: 400, Emin: -100000, Emax: 100000, R: "down"}) // wide enough for rescaling by more than 10^128
 		ops := []string{"add", "sub", "mul", "quo", "quoint", "rem", "cmp", "abs", "neg", "round", "quantize", "tointx", "tointv",
@@ -100,6 +116,16 @@ func init() {
 				}
 				cases[i] = cc
 			}
+			// the concurrent phase gets its own, identically built and so far untouched objects: a "read-only" method that
+			// writes to its operand on first use must do so while the other goroutines are looking
+			build := func() {
+				for i, p := range pool {
+					sx[i] = decDec(p)
+				}
+				for i, c := range ctxs {
+					sc[i] = decCtx(c)
+				}
+			}
 			callShared := func(cc concCase) (o AOut) {
 				defer func() {
 					if r := recover(); r != nil {
@@ -127,6 +153,10 @@ func init() {
 				ro[i] = readOnly(sx[cc.xi], sx[cc.yi])
 			}
 			// concurrently
+			build()
+			for i := range sx {
+				before[i] = encDec(sx[i])
+			}
 			G := 8
 			res := make([][]AOut, G)
 			roc := make([][][]string, G)
